@@ -301,3 +301,10 @@ package js_parser
 // it contains a rest binding, and the splitting pass reads that record. So the scan must visit every sibling: the loops
 // over array items and object properties are left only when they are exhausted.
 //@ guarded rest-binding-scan-visits-every-sibling C14: func=(*parser).lowerObjectRestHelper ; in=js_parser ; site=dyncall findRestBindings ; only-under=true:phi:rangeindex+1<call len(*) ; exhaustive-loop=1
+
+// C03 (a single-use value is moved only past code that cannot observe or change it): in an object literal the
+// properties are evaluated in order, and `...spread` copies own enumerable properties by CALLING their getters
+// (ECMA-262 CopyDataProperties), so like a computed key it may run arbitrary code. Whether the walk goes on to the value
+// of a later property must therefore depend on the KIND of the properties it has passed (spread or not), not only on
+// their computed-key flag.
+//@ decides substitution-stops-at-object-spread C03: func=(*parser).substituteSingleUseSymbolInExpr ; in=js_parser ; site=call substituteSingleUseSymbolInExpr ; when-arg=1:*.Properties[*].ValueOrNil ; control=1 ; scenario=single_use_moved_past_spread_getter ; must=Property.Kind
